@@ -24,6 +24,34 @@ _MODS = None
 _PROT = None
 
 
+class _NumpyPoisonedEmpty:
+    """Stands in for the `numpy` global of the modules under test.  Everything is numpy's own, except that `empty` /
+    `empty_like` hand out arrays whose cells hold a recognisable poison (NaN for inexact dtypes, a large negative
+    number for integers) instead of whatever the allocator happens to return.  numpy documents the content of such an
+    array as arbitrary, so code that writes every cell before reading it cannot tell the difference; code that reads
+    a cell it never wrote now does so deterministically (not only when the heap happens to be dirty)."""
+
+    def __getattr__(self, name):
+        return getattr(numpy, name)
+
+    @staticmethod
+    def _poison(a):
+        if a.dtype.kind in "fc":
+            a.fill(numpy.nan)
+        elif a.dtype.kind in "iu":
+            a.fill(-(2 ** 40) if a.dtype.itemsize >= 8 else (numpy.iinfo(a.dtype).min if a.dtype.kind == "i" else 201))
+        return a
+
+    def empty(self, *args, **kw):
+        return self._poison(numpy.empty(*args, **kw))
+
+    def empty_like(self, *args, **kw):
+        return self._poison(numpy.empty_like(*args, **kw))
+
+
+NP = _NumpyPoisonedEmpty()
+
+
 def _mods():
     global _MODS
     if _MODS is None:
@@ -39,6 +67,8 @@ def _mods():
         _PROT = (opvsel, gbsel)
         from pybrops.popgen.gmat.DensePhasedGenotypeMatrix import DensePhasedGenotypeMatrix
         from pybrops.model.gmod.DenseAdditiveLinearGenomicModel import DenseAdditiveLinearGenomicModel
+        for m in (haplo, ohvp, opvp, gbp):
+            m.numpy = NP        # uninitialised cells of numpy.empty arrays are visible as NaN / a sentinel
         _MODS = (haplo, ohvp, opvp, gbp, ohvsel, DensePhasedGenotypeMatrix, DenseAdditiveLinearGenomicModel)
     return _MODS
 
@@ -66,13 +96,21 @@ def _layout(case):
     return stix, spix
 
 
+def _enc_floats(v):
+    """canon.enc of a (nested list of) finite Python float(s), without the detour through Fraction objects"""
+    if isinstance(v, list):
+        return [_enc_floats(x) for x in v]
+    n, d = v.as_integer_ratio()
+    return n if d == 1 else f"{n}/{d}"
+
+
 def _finite_enc(arr):
     """(encoded array with non-finite cells replaced by 0, all-finite flag)"""
     a = numpy.asarray(arr, dtype=float)
     fin = bool(numpy.isfinite(a).all())
     if not fin:
         a = numpy.where(numpy.isfinite(a), a, 0.0)
-    return canon.enc(a), fin
+    return _enc_floats(a.tolist()), fin
 
 
 def _dirty(shape):
@@ -82,25 +120,27 @@ def _dirty(shape):
     del junk
 
 
-# which tree the model is asked to mirror: "asis" (the unchanged code, default) or "patched" (the tree with
-# /tmp/wk/C18/patch_D10.diff applied; Model/Haplo.lean section 7, theorem C18.patched_uses_requested_total).
-# Only ever set by hand to validate the proposed patch:  PYBROPS_REPO=<patched tree> C18_VARIANT=patched ./check C18
-VARIANT = os.environ.get("C18_VARIANT", "asis")
-_PATCHED = {"patched": True} if VARIANT == "patched" else {}
+# The model mirrors the tree WITH the repair of defect D10 (nhaploblk_chrom never gives a chromosome more blocks than
+# markers; haplobin falls back to equal-count blocks when an equal-width bin is empty).  C18_VARIANT=prerepair asks the
+# driver for the model of the code before that repair (Model/Haplo.lean section 7) -- only ever set by hand, to
+# compare with a tree that lacks the fix:  PYBROPS_REPO=<old tree> C18_VARIANT=prerepair ./check C18  (the Spec does
+# not change: such a tree violates the property on every layout with an empty equal-width bin).
+VARIANT = os.environ.get("C18_VARIANT", "repaired")
+_VAR = {"prerepair": True} if VARIANT == "prerepair" else {}
 
 
 class C18(Prop):
     PID = "C18"
     MODULE = "PybropsModel.Props.C18"
-    N_QUICK = 800
-    N_THOROUGH = 6000
+    N_QUICK = 500
+    N_THOROUGH = 2000
     CORRESPONDENCE = "functional"
     RULE = ("marker layouts of 1-4 chromosomes x 1-7 markers (integer / dyadic positions: evenly spread, "
             "clustered, duplicated positions, markers exactly on a linspace boundary, zero-length chromosomes, large "
             "common offsets 25000 + k/64 and 1e9 +- 0.5, spans of 1e-8; a second stream with arbitrary floats), every "
             "block total between the chromosome count and the marker count, 0/1 genotypes (random, partly inbred = "
             "phases tied at most loci, monomorphic columns) of 2-5 taxa x 1-4 phases, signed power-of-two / dyadic / "
-            "float / 1e-8 / 1e-5 / 25000 + small / 1e9 +- 0.5 effects for 1-3 traits, parent tuples of size 1-4 with and "
+            "float / 1e-15 / 1e-8 / 1e-5 / 25000 + small / 1e9 +- 0.5 effects for 1-3 traits, parent tuples of size 1-4 with and "
             "without repeated parents; fixed corpus cases with 1081 / 2300 cross configurations (2 and 3 memory chunks of "
             "_calc_ohvmat), a 150-marker block of all-ones genotypes (> 127), 1100 markers, 130 blocks.  Every pipeline "
             "case goes through ALL entry points: haplo.haplomat (other integer dtypes, integer effect arrays, Fortran / "
@@ -112,8 +152,13 @@ class C18(Prop):
             "haplobin / haplobin_bounds calls with arbitrary block counts and label vectors; mutate-then-requery "
             "sequences on ONE OPV / OHV / GB problem object (build from data A, evaluate, assign the matrices of data B "
             "-- other effects, genotypes and possibly ploidy, other nbestfndr -- through the public setters, evaluate, "
-            "put A back, evaluate, overwrite the held array IN PLACE with the data of A with reversed taxa, evaluate), "
-            "Spec on every answer recomputed from the data current at that time.  Non-trivial = requery case whose "
+            "put A back, evaluate, overwrite the held array IN PLACE with the data of A with reversed taxa, evaluate; then ONE "
+            "OHV / OPV / GB protocol object builds problems from data A, from data B, from the SAME container objects after "
+            "their arrays were overwritten in place, and -- OHV -- after unique_parents was re-assigned), "
+            "Spec on every answer recomputed from the data current at that time.  About a third of the layouts have an empty "
+            "equal-width bin or a short chromosome that the uncapped greedy loop would over-fill (regression of the repaired "
+            "defect D10: equal-count fallback, marker cap); numpy.empty is poisoned (NaN / sentinel) inside the modules under "
+            "test so that unwritten cells show deterministically.  Non-trivial = requery case whose "
             "second or fourth answer differs from the first, or pipeline case with more blocks than chromosomes, >= 2 "
             "taxa and >= 2 markers on some chromosome")
     TRUSTED = ["numpy.dot / max / sort as modelled in Model/Haplo.lean (values compared at 1e-9 relative to the "
@@ -132,8 +177,9 @@ class C18(Prop):
                    "the exact-arithmetic (Rat) layout model is compared in addition wherever no marker-vs-boundary comparison "
                    "and no greedy tie depends on rounding (decided per case, recorded in the detail); the binary64 layout "
                    "model is compared unconditionally",
-                   "an uninitialised numpy.empty cell is modelled as `none`; the harness pre-fills the heap with NaN "
-                   "so that such cells are visible, but no verdict depends on their content"]
+                   "an uninitialised numpy.empty cell is modelled as `none`; in the four modules under test the name `numpy` is "
+                   "bound to a proxy whose empty()/empty_like() return NaN- / sentinel-filled arrays (everything else is "
+                   "numpy's own), so a cell that is read without having been written shows deterministically"]
 
     # ------------------------------------------------------------------ generation
     @staticmethod
@@ -143,7 +189,7 @@ class C18(Prop):
         ntaxa = ntaxa or rng.choice([2, 3, 3, 4, 5])
         ntrait = ntrait or rng.choice([1, 1, 2, 3])
         geno = [[[rng.randint(0, 1) for _ in range(p)] for _ in range(ntaxa)] for _ in range(ploidy)]
-        gstyle = gstyle or rng.choice(["random"] * 4 + ["inbred", "mono"])
+        gstyle = gstyle or rng.choice(["random"] * 8 + ["inbred", "inbred", "mono", "mono", "codes"])
         if gstyle == "inbred" and ploidy >= 2:
             # partly inbred parents: every phase copies phase 0 except at a few loci (exact ties between the phases)
             het = set(rng.sample(range(p), rng.randint(0, max(0, p // 3))))
@@ -157,9 +203,14 @@ class C18(Prop):
                 for m in range(ploidy):
                     for i in range(ntaxa):
                         geno[m][i][j] = a
+        elif gstyle == "codes":
+            # the genome matrix is an integer matrix, not a boolean one: allele codes 0 / 1 / 2 and (haplo.haplomat only
+            # sees numbers) a value is the plain dot product g . u whatever the codes are
+            geno = [[[rng.choice([0, 1, 1, 2]) for _ in range(p)] for _ in range(ntaxa)] for _ in range(ploidy)]
         elif gstyle == "ones":
             geno = [[[1] * p for _ in range(ntaxa)] for _ in range(ploidy)]
-        ustyle = ustyle or rng.choice(["pow2", "pow2", "small", "dyadic", "float", "tiny", "e5", "offset", "big"])
+        ustyle = ustyle or rng.choice(["pow2", "pow2", "small", "small", "dyadic", "dyadic", "float", "float", "tiny", "tiny",
+                                       "e5", "e5", "offset", "offset", "big", "big", "femto"])
         u = []
         for i in range(p):
             row = []
@@ -175,6 +226,8 @@ class C18(Prop):
                 # magnitudes that a tolerance-style "fix" (isclose / clip / eps / float32) would disturb
                 elif ustyle == "tiny":      # ~1e-8
                     v = Fraction(rng.randint(-9, 9), 2 ** 30)
+                elif ustyle == "femto":     # ~1e-15: below any absolute threshold a "cleanup" might use
+                    v = Fraction(rng.randint(-9, 9), 2 ** 50)
                 elif ustyle == "e5":        # ~1e-5
                     v = Fraction(rng.randint(-9, 9), 2 ** 17)
                 elif ustyle == "offset":    # large common offset + small differences
@@ -310,7 +363,8 @@ class C18(Prop):
         rng = random.Random(1801)
         F = Fraction
         out = []
-        # D10, the design's witness: clustered positions, 4 blocks requested, 2 produced
+        # regression cases of the repaired defect D10 (must PASS): the design's witness -- clustered positions, 4
+        # blocks requested, only 2 produced before the fix (equal-count fallback now gives 4)
         out.append(self._mk(rng, [[F(0), F(1, 100), F(2, 100), F(1)]], 4, ntaxa=3, ntrait=1, ustyle="pow2"))
         # the pinned test layout (17 markers, 3 chromosomes, 5 blocks)
         pinned = [[F(s) for s in c] for c in (["0.10", "1.35", "1.56", "2.10", "2.15", "2.72", "3.04"],
@@ -320,16 +374,26 @@ class C18(Prop):
         # markers exactly on boundaries: 0,1,2,3,4 in 2 / 4 bins; later bin wins
         out.append(self._mk(rng, [[F(i) for i in range(5)]], 2, ntaxa=3, ntrait=1, ustyle="pow2"))
         out.append(self._mk(rng, [[F(i) for i in range(5)]], 4, ntaxa=3, ntrait=1, ustyle="pow2"))
-        # a bin whose only marker sits on its upper boundary: (0,2,3,4) in 4 bins -> label 1 unused (D10)
+        # a bin whose only marker sits on its upper boundary: (0,2,3,4) in 4 bins -> label 1 was unused (D10 regression)
         out.append(self._mk(rng, [[F(0), F(2), F(3), F(4)]], 4, ntaxa=2, ntrait=1, ustyle="pow2"))
         # as many blocks as markers, evenly spread: every marker its own block
         out.append(self._mk(rng, [[F(0), F(1), F(2)], [F(5), F(6)]], 5, ntaxa=3, ntrait=2, ustyle="pow2"))
         # one block per chromosome (lower end of the quantifier)
         out.append(self._mk(rng, [[F(0), F(3), F(4)], [F(1), F(2)], [F(7)]], 3, ntaxa=4, ntrait=1, ustyle="small"))
-        # zero total genetic length: ideal = NaN, all extra blocks to chromosome 0 (D10 + guard)
+        # zero total genetic length: ideal = NaN, extra blocks go to the first chromosome WITH ROOM (D10 regression:
+        # before the fix chromosome 0 got all of them and the marker-count guard raised for 4 blocks)
         out.append(self._mk(rng, [[F(1), F(1)], [F(2), F(2)]], 3, ntaxa=2, ntrait=1, ustyle="pow2"))
-        # marker-count guard: 2 markers far apart get 4 of 5 blocks
+        out.append(self._mk(rng, [[F(1), F(1)], [F(2), F(2)]], 4, ntaxa=2, ntrait=1, ustyle="pow2"))
+        out.append(self._mk(rng, [[F(1)], [F(2), F(2), F(2)], [F(5)]], 5, ntaxa=3, ntrait=1, ustyle="small"))
+        # marker-count guard (D10 regression): 2 markers far apart got 4 of 5 blocks before the fix -> every entry
+        # point raised; now the full chromosome is skipped (2 + 3)
         out.append(self._mk(rng, [[F(0), F(100)], [F(0), F(1), F(2), F(3)]], 5, ntaxa=2, ntrait=1, ustyle="pow2"))
+        # further D10 regression layouts: blocks == markers on clustered positions over 2 and 3 chromosomes, duplicated
+        # positions (equal-count blocks split markers that share a position), one-marker chromosomes next to a long one
+        out.append(self._mk(rng, [[F(0), F(1, 64), F(2, 64), F(9)], [F(0), F(5)]], 6, ntaxa=3, ntrait=2, ustyle="small"))
+        out.append(self._mk(rng, [[F(3)], [F(0), F(0), F(0), F(7)], [F(2)]], 5, ntaxa=3, ploidy=3, ntrait=1, ustyle="dyadic"))
+        out.append(self._mk(rng, [[F(0), F(0), F(1), F(1), F(1), F(8)]], 5, ntaxa=2, ploidy=1, ntrait=1, ustyle="pow2"))
+        out.append(self._mk(rng, [[F(0), F(1000)], [F(0), F(1), F(2)], [F(0), F(1)]], 6, ntaxa=3, ntrait=1, ustyle="offset"))
         # exact tie of the greedy loop between chromosomes of equal length
         out.append(self._mk(rng, [[F(0), F(1), F(2)], [F(0), F(1), F(2)]], 3, ntaxa=3, ntrait=1, ustyle="pow2"))
         # rejected: fewer blocks than chromosomes
@@ -424,14 +488,8 @@ class C18(Prop):
             nh = rng.randint(nchr, p)
             if rng.random() < 0.3:
                 nh = rng.choice([nchr, min(p, nchr + 1), p])
-            # keep roughly two thirds of the stream free of empty equal-width bins: those cases exercise
-            # every clause of the Spec; the others reproduce the known defect D10
-            if not isfloat and tries < 50 * n:
-                gl = [c[-1] - c[0] for c in chroms]
-                nb = self._apportion_exact(nh, gl)
-                d10 = any(b > len(c) for b, c in zip(nb, chroms)) or self._has_empty_bin_exact(chroms, nb)
-                if d10 and rng.random() < 0.6:
-                    continue
+            # layouts with an empty equal-width bin (about a third of the stream) take the equal-count fallback of
+            # haplobin and the capped greedy loop of nhaploblk_chrom; the others keep the equal-width labels
             ploidy = rng.choice([2, 2, 2, 2, 1, 3, 4])
             out.append(self._mk(rng, chroms, nh, ploidy=ploidy, isfloat=isfloat))
         return out
@@ -448,18 +506,13 @@ class C18(Prop):
                         ustyle=rng.choice(["small", "pow2", "dyadic"]), nparent=nparent, unique=unique)
 
     def _mk_requery(self, rng, chroms=None, nh=None):
-        """a layout without empty equal-width bin (exact arithmetic styles only), two data sets A and B on it"""
+        """a layout (exact arithmetic styles only; clustered ones take the equal-count fallback), two data sets A and B on it"""
         for _ in range(40):
             if chroms is None:
-                cs, _ = self._layout_case(rng, style=rng.choice(["even", "even", "int", "tie"]))
+                cs, _ = self._layout_case(rng, style=rng.choice(["even", "even", "int", "tie", "cluster"]))
                 n_ = rng.randint(len(cs), sum(len(c) for c in cs))
             else:
                 cs, n_ = chroms, nh
-            nb = self._apportion_exact(n_, [c[-1] - c[0] for c in cs])
-            if any(b > len(c) for b, c in zip(nb, cs)) or self._has_empty_bin_exact(cs, nb):
-                if chroms is not None:
-                    return None
-                continue
             ploidy = rng.choice([2, 2, 2, 1, 3, 4])
             c = self._mk(rng, cs, n_, ploidy=ploidy, kind="requery")
             ntaxa, p, ntrait = len(c["geno"][0]), len(c["genpos"]), len(c["u"][0])
@@ -469,12 +522,16 @@ class C18(Prop):
                                   for t in range(ntrait)] for i in range(p)])
             c["nbest2"] = rng.randint(1, len(c["x_pop"]))
             c["dh"] = [[[rng.randrange(8), d] for _, d in ch] for ch in c["dh"]]
+            # other genetic positions for the same markers and chromosomes (assigned to the container later on)
+            cs2 = [self._positions(rng, rng.choice(["even", "int", "cluster", "tie"]), len(ch)) for ch in cs]
+            c["genpos2"] = _encpos(cs2)
             return c
         return None
 
     def exhaustive(self, tier):
-        """thorough tier: every layout of 1-2 chromosomes whose positions are sorted multisets of size 1-3 over
-        {0,1,2,3}, with every block total between the chromosome count and the marker count (fixed genotypes)"""
+        """thorough tier: every layout of 1-2 chromosomes whose positions are sorted multisets over {0,1,2,3} (size 1-3
+        for the first chromosome, 1-2 for the second), with every block total between the chromosome count and the
+        marker count (fixed genotypes)"""
         if tier != "thorough":
             return None
         import itertools
@@ -483,7 +540,7 @@ class C18(Prop):
         multis = [list(map(Fraction, c)) for k in (1, 2, 3)
                   for c in itertools.combinations_with_replacement(range(4), k)]
         out = []
-        layouts = [[a] for a in multis] + [[a, b] for a in multis for b in multis]
+        layouts = [[a] for a in multis] + [[a, b] for a in multis for b in multis if len(b) <= 2]
         for chroms in layouts:
             p = sum(len(c) for c in chroms)
             for nh in range(len(chroms), p + 1):
@@ -596,6 +653,9 @@ class C18(Prop):
             obs["xmap"] = canon.enc(xmap)
             obs["ohvmat"] = fenc(prob.ohvmat)
             obs["ohv_latent"] = fenc(prob.latentfn(xo))
+            # the same query again after another one on the same object (a query must not disturb the next)
+            prob.latentfn(xo[::-1])
+            obs["again"] = {"ohv": fenc(prob.latentfn(xo))}
             # the haplotype matrix this class computed (static method, same arguments)
             _dirty(hshape)
             H = OHV._calc_haplomat(pg, gm, nh)
@@ -629,6 +689,8 @@ class C18(Prop):
         if prob2 is not None:
             hmats["opv"] = fenc(prob2.haplomat)
             obs["opv_latent"] = fenc(prob2.latentfn(xp))
+            prob2.latentfn(numpy.arange(n)[::-1].copy())
+            obs.setdefault("again", {})["opv"] = fenc(prob2.latentfn(xp))
             if "xw" in opts:
                 q = _PROT[0].OptimalPopulationValueSubsetSelection(
                     ntrait=t, nhaploblk=nhx, ncross=1, nparent=len(xp), nmating=1, nprogeny=1, nobj=t
@@ -643,6 +705,8 @@ class C18(Prop):
         if prob3 is not None:
             hmats["gb"] = fenc(prob3.haplomat)
             obs["gb_latent"] = fenc(prob3.latentfn(xp))
+            prob3.latentfn(numpy.arange(n)[::-1].copy())
+            obs.setdefault("again", {})["gb"] = fenc(prob3.latentfn(xp))
             if "xw" in opts:
                 q = _PROT[1].GenotypeBuilderSubsetSelection(
                     ntrait=t, nhaploblk=nhx, nbestfndr=case["nbest"], ncross=1, nparent=len(xp), nmating=1,
@@ -718,7 +782,9 @@ class C18(Prop):
         obs = dict(nblk=canon.enc(nblk), hbin=canon.enc(hbin), hstix=canon.enc(st), hspix=canon.enc(sp),
                    hlen=canon.enc(ln), hbs=self._float_bounds(genpos, stix_l, spix_l, [int(v) for v in nblk]))
         if len(st) != nh or numpy.any(nblk > (spix - stix)):
-            obs["skipped"] = "layout has an empty equal-width bin (D10 is exercised by the pipeline cases)"
+            # fewer blocks than requested / more blocks than markers on a chromosome: the layout itself violates the
+            # property (the repaired defect D10 is back); nothing further can be built on it
+            obs["broken_layout"] = f"{len(st)} blocks for nhaploblk={nh}, nblk={nblk.tolist()}"
             return obs
 
         def data(gk, uk, reverse=False):
@@ -796,6 +862,48 @@ class C18(Prop):
         g.haplomat[...] = HC
         r.update(fourth=enc(g.latentfn(xp)), hmat4=enc(g.haplomat))
         obs["gb"] = r
+        # --- ONE protocol object per class builds several problems in a row: other containers (data B); then the SAME
+        # container objects with their arrays overwritten IN PLACE (identity unchanged, content = data A with the taxa
+        # reversed); then -- OHV -- the protocol's unique_parents attribute re-assigned.  Anything remembered between
+        # calls (per protocol, per container identity, per class) shows as a stale answer.
+        nxA = len(q.decn_space_xmap)
+        pk = dict(ntrait=t, nhaploblk=nh, ncross=max(1, min(len(xo), nxA)), nparent=case["nparent"], nmating=1,
+                  nprogeny=1, nobj=t)
+        P1 = ohvsel.OptimalHaploidValueSubsetSelection(unique_parents=case["unique"], **dict(pk, ncross=1))
+        P2 = _PROT[0].OptimalPopulationValueSubsetSelection(**dict(pk, ncross=1, nparent=len(xp)))
+        P3 = _PROT[1].GenotypeBuilderSubsetSelection(nbestfndr=case["nbest"], **dict(pk, ncross=1, nparent=len(xp)))
+        args = lambda pg, gm: (pg, None, None, None, gm, 0, 1)
+        for Pk in (P1, P2, P3):
+            Pk.problem(*args(pgA, gmA))
+        r = {}
+        q1, q2, q3 = P1.problem(*args(pgB, gmB)), P2.problem(*args(pgB, gmB)), P3.problem(*args(pgB, gmB))
+        r["second"] = {"xmap": canon.enc(q1.decn_space_xmap), "ohvmat": enc(q1.ohvmat), "opv_hmat": enc(q2.haplomat),
+                       "opv": enc(q2.latentfn(xp)), "gb_hmat": enc(q3.haplomat), "gb": enc(q3.latentfn(xp))}
+        pgA.mat[...] = pgC.mat                       # same objects, new content
+        q1, q2, q3 = P1.problem(*args(pgA, gmA)), P2.problem(*args(pgA, gmA)), P3.problem(*args(pgA, gmA))
+        r["fourth"] = {"xmap": canon.enc(q1.decn_space_xmap), "ohvmat": enc(q1.ohvmat), "opv_hmat": enc(q2.haplomat),
+                       "opv": enc(q2.latentfn(xp)), "gb_hmat": enc(q3.haplomat), "gb": enc(q3.latentfn(xp))}
+        flip = not case["unique"]
+        if not (flip and case["nparent"] > n):
+            P1.unique_parents = flip
+            q1 = P1.problem(*args(pgB, gmB))
+            r["fifth"] = {"xmap": canon.enc(q1.decn_space_xmap), "ohvmat": enc(q1.ohvmat), "unique": flip}
+        if "genpos2" in case:
+            # sixth: the genetic positions held by the container are RE-ASSIGNED (same markers, same chromosomes, other
+            # map): every block boundary may move; a layout remembered per container / per protocol is stale now
+            gp2 = numpy.array([_f(x) for x in case["genpos2"]], dtype=float)
+            pgB.vrnt_genpos = gp2.copy()
+            nb2 = haplo.nhaploblk_chrom(nh, gp2, stix, spix)
+            hb2 = haplo.haplobin(nb2, gp2, stix, spix)
+            s2, e2, l2 = haplo.haplobin_bounds(hb2)
+            q1, q2, q3 = P1.problem(*args(pgB, gmB)), P2.problem(*args(pgB, gmB)), P3.problem(*args(pgB, gmB))
+            r["sixth"] = {"nblk": canon.enc(nb2), "hbin": canon.enc(hb2), "hstix": canon.enc(s2), "hspix": canon.enc(e2),
+                          "hlen": canon.enc(l2), "hbs": self._float_bounds(gp2, stix_l, spix_l, [int(v) for v in nb2]),
+                          "xmap": canon.enc(q1.decn_space_xmap), "ohvmat": enc(q1.ohvmat),
+                          "opv_hmat": enc(q2.haplomat), "opv": enc(q2.latentfn(xp)),
+                          "gb_hmat": enc(q3.haplomat), "gb": enc(q3.latentfn(xp)),
+                          "unique": bool(P1.unique_parents)}
+        obs["prot"] = r
         obs["finite"] = fin[0]
         return obs
 
@@ -805,9 +913,10 @@ class C18(Prop):
         return [canon.enc(numpy.linspace(genpos[a], genpos[b - 1], nb + 1)) for a, b, nb in zip(stix, spix, nblk)]
 
     # ------------------------------------------------------------------ model requests
-    # answers of the (deterministic) driver ops, memoised per process: the self-test evaluates the same cases under
-    # every mutant, and most requests -- the model of the unchanged code, the Spec of outputs the mutant did not
-    # change -- repeat verbatim.  A memoised answer travels through the op `c18.const` (returns its argument).
+    # answers of the (deterministic) driver ops, memoised per process by request text: the self-test evaluates the
+    # same cases under every mutant, and most requests -- the model of the unchanged code, the Spec of outputs the
+    # mutant did not change -- repeat verbatim.  A request whose answer is known is not sent again; the answer list
+    # handed to the judge is re-assembled from the memo and the fresh answers, in request order.
     _MEMO = {}
     _PENDING = {}
     _MEMO_MAX = 60000
@@ -819,17 +928,26 @@ class C18(Prop):
         keys, out = [], []
         for r in reqs:
             k = hashlib.sha1(json.dumps(r, sort_keys=True).encode()).digest()
-            keys.append(k)
-            out.append({"op": "c18.const", "value": self._MEMO[k]} if k in self._MEMO else r)
+            hit = k in self._MEMO
+            keys.append((k, hit))
+            if not hit:
+                out.append(r)
         self._PENDING[id(obs)] = keys
         return out
 
     def judge(self, case, obs, answers):
         keys = self._PENDING.pop(id(obs), None)
-        if keys is not None and len(keys) == len(answers):
-            for k, a in zip(keys, answers):
-                if "ok" in a and k not in self._MEMO and len(self._MEMO) < self._MEMO_MAX:
-                    self._MEMO[k] = a["ok"]
+        if keys is not None and sum(1 for _, hit in keys if not hit) == len(answers):
+            full, it = [], iter(answers)
+            for k, hit in keys:
+                if hit:
+                    full.append({"ok": self._MEMO[k]})
+                else:
+                    a = next(it)
+                    if "ok" in a and len(self._MEMO) < self._MEMO_MAX:
+                        self._MEMO[k] = a["ok"]
+                    full.append(a)
+            answers = full
         return self._judge(case, obs, answers)
 
     def _requests(self, case, obs):
@@ -839,15 +957,15 @@ class C18(Prop):
         stix, spix = _layout(case)
         lay = {"genpos": case["genpos"], "stix": stix, "spix": spix}
         if k == "haplobin":
-            return [{"op": "c18.haplobin", "nblk": case["nblk"], "hbs": obs["hbs"], **lay, **_PATCHED},
+            return [{"op": "c18.haplobin", "nblk": case["nblk"], "hbs": obs["hbs"], **lay, **_VAR},
                     {"op": "c18.bounds", "hbin": obs["hbin"]}]
         if k == "reject":
-            return [{"op": "c18.nblk", "nhaploblk": case["nhaploblk"], **lay, **_PATCHED}]
+            return [{"op": "c18.nblk", "nhaploblk": case["nhaploblk"], **lay, **_VAR}]
         nh = case["nhaploblk"]
         if k == "requery":
-            reqs = [{"op": "c18.nblk", "nhaploblk": nh, **lay, **_PATCHED},
-                    {"op": "c18.haplobin", "nblk": obs["nblk"], "hbs": obs["hbs"], **lay, **_PATCHED}]
-            if "skipped" in obs:
+            reqs = [{"op": "c18.nblk", "nhaploblk": nh, **lay, **_VAR},
+                    {"op": "c18.haplobin", "nblk": obs["nblk"], "hbs": obs["hbs"], **lay, **_VAR}]
+            if "broken_layout" in obs:
                 return reqs
             base = {"nhaploblk": nh, "nparent": case["nparent"], "unique": case["unique"], "x_ohv": case["x_ohv"],
                     "x_pop": case["x_pop"], **lay}
@@ -855,9 +973,9 @@ class C18(Prop):
                      "hspix": obs["hspix"], "hlen": obs["hlen"], "dh": case["dh"], "xmap": obs["ohv"]["xmap"], **base}
             reqs += [
                 {"op": "c18.model", "guard": True, "geno": case["geno"], "u": case["u"], "nbest": case["nbest"],
-                 **base, **_PATCHED},
+                 **base, **_VAR},
                 {"op": "c18.model", "guard": True, "geno": case["geno2"], "u": case["u2"], "nbest": case["nbest2"],
-                 **base, **_PATCHED},
+                 **base, **_VAR},
                 # Spec on the SECOND answers against the NEW data (B) ...
                 {**sbase, "geno": case["geno2"], "u": case["u2"], "hmats": [obs["opv"]["hmat2"], obs["gb"]["hmat2"]],
                  "ohvmat": obs["ohv"]["ohvmat2"], "opv_latent": obs["opv"]["second"],
@@ -871,25 +989,53 @@ class C18(Prop):
                 genoC = [[row for row in reversed(gm)] for gm in case["geno"]]
                 reqs += [
                     {"op": "c18.model", "guard": True, "geno": genoC, "u": case["u"], "nbest": case["nbest"],
-                     **base, **_PATCHED},
+                     **base, **_VAR},
                     # ... and on the FOURTH answers against the data written in place (A, taxa reversed)
                     {**sbase, "geno": genoC, "u": case["u"], "hmats": [obs["opv"]["hmat4"], obs["gb"]["hmat4"]],
                      "ohvmat": obs["ohv"]["ohvmat4"], "opv_latent": obs["opv"]["fourth"],
                      "ohv_latent": obs["ohv"]["fourth"], "gb_latent": obs["gb"]["fourth"], "nbest": case["nbest"]},
                 ]
+            if "prot" in obs:
+                pr = obs["prot"]
+                psb = {k: v for k, v in sbase.items() if k not in ("x_ohv",)}
+                for step, g_, u_ in (("second", case["geno2"], case["u2"]), ("fourth", genoC, case["u"])):
+                    o = pr[step]
+                    reqs.append({**psb, "geno": g_, "u": u_, "xmap": o["xmap"], "hmats": [o["opv_hmat"], o["gb_hmat"]],
+                                 "ohvmat": o["ohvmat"], "opv_latent": o["opv"], "gb_latent": o["gb"],
+                                 "nbest": case["nbest"]})
+                if "fifth" in pr:
+                    o = pr["fifth"]
+                    reqs.append({"op": "c18.model", "guard": True, "geno": case["geno2"], "u": case["u2"],
+                                 "nbest": case["nbest"], **dict(base, unique=o["unique"], x_ohv=[]), **_VAR})
+                    reqs.append({**psb, "geno": case["geno2"], "u": case["u2"], "xmap": o["xmap"], "hmats": [],
+                                 "ohvmat": o["ohvmat"], "unique": o["unique"]})
+                if "sixth" in pr:
+                    o = pr["sixth"]
+                    lay2 = {"genpos": case["genpos2"], "stix": stix, "spix": spix}
+                    b2 = dict(base, unique=o["unique"], x_ohv=[], **lay2)
+                    reqs += [{"op": "c18.nblk", "nhaploblk": nh, **lay2, **_VAR},
+                             {"op": "c18.haplobin", "nblk": o["nblk"], "hbs": o["hbs"], **lay2, **_VAR},
+                             {"op": "c18.model", "guard": True, "geno": case["geno2"], "u": case["u2"],
+                              "nbest": case["nbest"], **b2, **_VAR},
+                             {"op": "c18.spec", "nblk": o["nblk"], "hbin": o["hbin"], "hstix": o["hstix"],
+                              "hspix": o["hspix"], "hlen": o["hlen"], "dh": case["dh"], "xmap": o["xmap"],
+                              "nhaploblk": nh, "nparent": case["nparent"], "unique": o["unique"],
+                              "x_pop": case["x_pop"], **lay2, "geno": case["geno2"], "u": case["u2"],
+                              "hmats": [o["opv_hmat"], o["gb_hmat"]], "ohvmat": o["ohvmat"], "opv_latent": o["opv"],
+                              "gb_latent": o["gb"], "nbest": case["nbest"]}]
             return reqs
         opts = case.get("opts") or {}
         model = {"op": "c18.model", "nhaploblk": nh, "guard": True, "geno": case["geno"], "u": case["u"],
                  "nparent": case["nparent"], "unique": case["unique"], "x_ohv": case["x_ohv"],
-                 "x_pop": case["x_pop"], "nbest": case["nbest"], **lay, **_PATCHED}
+                 "x_pop": case["x_pop"], "nbest": case["nbest"], **lay, **_VAR}
         ws = None
         if "xmap" in obs and "xw" in opts:
             ws = [canon.enc(w) for w in self._weights(opts["xw"], len(obs["xmap"]))]
             model["xw"] = ws[0]
         if "ohvmat_mem" in obs:
             model["mems"] = opts.get("mems", [])
-        reqs = [{"op": "c18.nblk", "nhaploblk": nh, **lay, **_PATCHED},
-                {"op": "c18.haplobin", "nblk": obs["nblk"], "hbs": obs["hbs"], **lay, **_PATCHED},
+        reqs = [{"op": "c18.nblk", "nhaploblk": nh, **lay, **_VAR},
+                {"op": "c18.haplobin", "nblk": obs["nblk"], "hbs": obs["hbs"], **lay, **_VAR},
                 {"op": "c18.bounds", "hbin": obs["hbin"]},
                 model]
         spec = {"op": "c18.spec", "nhaploblk": nh, "nblk": obs["nblk"], "hbin": obs["hbin"],
@@ -917,6 +1063,11 @@ class C18(Prop):
             spec["opv_latents"] = [obs["opv_prot"]]
         if "gb_prot" in obs:
             spec["gb_latents"] = [obs["gb_prot"]]
+        ag = obs.get("again", {})
+        if "opv" in ag:
+            spec.setdefault("opv_latents", []).append(ag["opv"])
+        if "gb" in ag:
+            spec.setdefault("gb_latents", []).append(ag["gb"])
         reqs.append(spec)
         return reqs
 
@@ -1045,6 +1196,9 @@ class C18(Prop):
         failed = list(sp["failed"])
         if not obs["finite"]:
             failed.append("finite")
+        if "ohv" in obs.get("again", {}) and not canon.close_enc(obs["again"]["ohv"], obs["ohv_latent"], rel=1e-9,
+                                                                  abs_=1e-9 * self._scale(case)):
+            failed.append("ohv_latent_def[same query again]")
         if obs["guard"]:
             failed.append("guard:" + "+".join(obs["guard"]))
         spec = not failed
@@ -1052,8 +1206,7 @@ class C18(Prop):
         nontriv = (case["nhaploblk"] > len(stix) and len(case["geno"][0]) >= 2 and max(case["chr_sizes"]) >= 2)
         return {"corr": corr, "spec": spec, "nontrivial": nontriv, "failed": failed,
                 "empty_bin": self._empty_bin(case, obs["hbs"]),
-                # the model of the UNCHANGED code (layout at binary64) exhibits the failure on this very input:
-                # only then may a known finding explain it
+                # (informational) the model itself leaves block columns unwritten / refuses: only with C18_VARIANT=prerepair
                 "model_predicts": bool(model_d10),
                 "detail": f"spec failed={failed} checked={sp['checked']} nblk={obs['nblk']} hbin={obs['hbin']} "
                           f"blocks={len(obs['hstix'])}/{case['nhaploblk']} guard={obs['guard']} finite={obs['finite']} "
@@ -1061,8 +1214,9 @@ class C18(Prop):
 
     def _judge_requery(self, case, obs, ans):
         mn, mb = ans[0], ans[1]
-        if "skipped" in obs:
-            return {"corr": True, "spec": True, "nontrivial": False, "detail": "requery: " + obs["skipped"]}
+        if "broken_layout" in obs:
+            return {"corr": mn.get("nblk_f") == obs["nblk"] and mb["hbin_f"] == obs["hbin"], "spec": False,
+                    "nontrivial": False, "failed": ["total"], "detail": "requery: " + obs["broken_layout"]}
         mA, mB, sB, sA = ans[2:6]
         mC, sC = (ans[6], ans[7]) if len(ans) >= 8 else (None, None)
         notes, failed = [], []
@@ -1103,6 +1257,40 @@ class C18(Prop):
                     or not close(mB["hmat"], obs["gb"]["hmat2"]) or mB["xmap"] != obs["ohv"]["xmap"]:
                 corr = False
                 notes.append("matrices read back after the setter differ from the model of the new data")
+        # ---- protocol objects reused for several problems
+        if "prot" in obs and mC is not None:
+            pr = obs["prot"]
+            rest = ans[8:]
+            sPb, sPc = rest[0], rest[1]
+            for tag, sp in (("protocol second/new-containers", sPb), ("protocol fourth/in-place", sPc)):
+                failed += [f"{c}[{tag}]" for c in sp["failed"]]
+            for step, mm in (("second", mB), ("fourth", mC)):
+                o = pr[step]
+                if "error" in mm:
+                    continue
+                if o["xmap"] != mm["xmap"] or not close(mm["ohvmat"], o["ohvmat"]) or not close(mm["hmat"], o["opv_hmat"]) \
+                        or not close(mm["hmat"], o["gb_hmat"]) or not close(mm["opv_latent"], o["opv"]):
+                    corr = False
+                    notes.append(f"protocol.{step}: differs from the model of the data current at that call")
+            if "fifth" in pr:
+                mD, sPd = rest[2], rest[3]
+                failed += [f"{c}[protocol fifth/unique_parents re-assigned]" for c in sPd["failed"]]
+                if "error" in mD or pr["fifth"]["xmap"] != mD["xmap"] or not close(mD["ohvmat"], pr["fifth"]["ohvmat"]):
+                    corr = False
+                    notes.append("protocol.fifth: cross map / ohvmat differ from the model with unique_parents re-assigned")
+            if "sixth" in pr:
+                o = pr["sixth"]
+                mn6, mb6, mm6, sP6 = rest[-4:]
+                failed += [f"{c}[protocol sixth/genetic positions re-assigned]" for c in sP6["failed"]]
+                if mn6.get("nblk_f") != o["nblk"] or mb6["hbin_f"] != o["hbin"] or mb6["hbin_hb"] != o["hbin"]:
+                    corr = False
+                    notes.append("protocol.sixth: layout of the re-assigned positions differs from the binary64 model")
+                if "error" in mm6 or mm6["hstix"] != o["hstix"] or o["xmap"] != mm6["xmap"] \
+                        or not close(mm6["ohvmat"], o["ohvmat"]) or not close(mm6["hmat"], o["opv_hmat"]) \
+                        or not close(mm6["hmat"], o["gb_hmat"]) or not close(mm6["opv_latent"], o["opv"]) \
+                        or not close(mm6["gb_latent"], o["gb"]):
+                    corr = False
+                    notes.append("protocol.sixth: differs from the model of the re-assigned positions")
         steps = ("first", "second", "third", "fourth")
         changed = any(not close(obs[nm]["first"], obs[nm][k2]) for nm in ("opv", "ohv", "gb")
                       for k2 in ("second", "fourth") if k2 in obs[nm])
@@ -1203,58 +1391,20 @@ class C18(Prop):
 
     # ------------------------------------------------------------------ findings / shrinking
     def signature(self, case, obs, verdict):
+        """no finding of C18 is open (D10 is repaired): the signature only names the site of a failure"""
         sig = {"kind": case.get("kind"), "site": "haplobin", "cond": "none"}
         if case.get("kind") == "requery":
             sig["site"] = "problem-object"
-            sig["failed"] = sorted(set(f.split("[")[0] for f in verdict.get("failed", [])))
-            return sig
-        if case.get("kind") != "pipeline" or not isinstance(obs, dict) or "hbs" not in obs:
-            return sig
+        sig["failed"] = sorted(set(f.split("[")[0] for f in verdict.get("failed", [])))
         if verdict.get("empty_bin"):
             sig["cond"] = "empty_equal_width_bin"
-        failed = verdict.get("failed", [])
-        # the structural clauses must hold for the case to be an instance of D10: labels total, contiguous,
-        # ordered, within chromosomes, apportionment exact; only the clauses that depend on every requested
-        # block being produced may fail
-        sig["structure_ok"] = not any(f in failed for f in ("apportion", "partition", "labels", "within_chrom"))
-        sig["fewer_blocks"] = len(obs.get("hstix", [])) < case["nhaploblk"]
-        sig["model_predicts"] = bool(verdict.get("model_predicts"))
         return sig
 
-    @staticmethod
-    def _is_d10(case):
-        """generator-side helper (filters shrink candidates only; no verdict uses it): does the layout have an empty
-        equal-width bin / trip the marker-count guard, computed with numpy's own arithmetic"""
-        genpos = numpy.array([_f(x) for x in case["genpos"]], dtype=float)
-        stix, spix = (numpy.array(v) for v in _layout(case))
-        nh, nchr = case["nhaploblk"], len(stix)
-        if nh < nchr:
-            return True
-        gl = genpos[spix - 1] - genpos[stix]
-        with numpy.errstate(all="ignore"):
-            ideal = (nh / gl.sum()) * gl
-        nb = numpy.ones(nchr, dtype=int)
-        for _ in range(nh - nchr):
-            nb[(nb - ideal).argmin()] += 1
-        if numpy.any(nb > spix - stix):
-            return True
-        for a, b, k in zip(stix, spix, nb):
-            hb = numpy.linspace(genpos[a], genpos[b - 1], k + 1)
-            x = genpos[a:b]
-            for j in range(k - 1):
-                if not numpy.any((hb[j] <= x) & (x < hb[j + 1])):
-                    return True
-        return False
-
     def shrink(self, case):
-        """smaller variants that are still VALID inputs; a case without empty equal-width bin never shrinks into one
-        with (the search for a smaller failing input must not drift into the known defect D10)"""
+        """smaller variants that are still VALID inputs (block total between chromosome count and marker count)"""
         if case.get("kind") not in ("pipeline", "requery"):
             return
-        base = self._is_d10(case)
-        for c in self._shrink_raw(case):
-            if base or not self._is_d10(c):
-                yield c
+        yield from self._shrink_raw(case)
 
     def _shrink_raw(self, case):
         rq = case["kind"] == "requery"          # second data set shrinks along with the first
@@ -1362,10 +1512,16 @@ class C18(Prop):
             if nhaploblk < nchr:
                 raise ValueError("too few")
             genlen = genpos[chrgrp_spix - 1] - genpos[chrgrp_stix]
-            ideal = (nhaploblk / genlen.sum()) * genlen
+            with numpy.errstate(all="ignore"):
+                ideal = (nhaploblk / genlen.sum()) * genlen
             out = numpy.ones(nchr, dtype="int")
+            lens = chrgrp_spix - chrgrp_stix
             for _ in range(nhaploblk - nchr - 1):
-                out[(out - ideal).argmin()] += 1
+                diff = out - ideal
+                full = out >= lens              # the marker cap of the repaired code is kept
+                if not full.all():
+                    diff = numpy.where(full, numpy.inf, diff)
+                out[diff.argmin()] += 1
             return out
 
         # 1b. argmax instead of argmin (total kept, blocks go to the wrong chromosome)
@@ -1374,10 +1530,55 @@ class C18(Prop):
             if nhaploblk < nchr:
                 raise ValueError("too few")
             genlen = genpos[chrgrp_spix - 1] - genpos[chrgrp_stix]
-            ideal = (nhaploblk / genlen.sum()) * genlen
+            with numpy.errstate(all="ignore"):
+                ideal = (nhaploblk / genlen.sum()) * genlen
+            out = numpy.ones(nchr, dtype="int")
+            lens = chrgrp_spix - chrgrp_stix
+            for _ in range(nhaploblk - nchr):
+                diff = out - ideal
+                full = out >= lens              # the marker cap of the repaired code is kept
+                if not full.all():
+                    diff = numpy.where(full, -numpy.inf, diff)
+                out[diff.argmax()] += 1
+            return out
+
+        # 1c. the repaired defect D10 coming back: the greedy loop without the marker cap / haplobin without the
+        # equal-count fallback (the code before the fix)
+        def nblk_uncapped(nhaploblk, genpos, chrgrp_stix, chrgrp_spix):
+            nchr = len(chrgrp_stix)
+            if nhaploblk < nchr:
+                raise ValueError("too few")
+            genlen = genpos[chrgrp_spix - 1] - genpos[chrgrp_stix]
+            with numpy.errstate(all="ignore"):
+                ideal = (nhaploblk / genlen.sum()) * genlen
             out = numpy.ones(nchr, dtype="int")
             for _ in range(nhaploblk - nchr):
-                out[(out - ideal).argmax()] += 1
+                out[(out - ideal).argmin()] += 1
+            return out
+
+        def haplobin_no_fallback(nhaploblk_chrom, genpos, chrgrp_stix, chrgrp_spix):
+            out = numpy.zeros(len(genpos), dtype="int")
+            k = 0
+            for i in range(len(chrgrp_stix)):
+                nhap = nhaploblk_chrom[i]
+                stix, spix = chrgrp_stix[i], chrgrp_spix[i]
+                hbound = numpy.linspace(genpos[stix], genpos[spix - 1], nhap + 1)
+                for j in range(nhap):
+                    chrmap = genpos[stix:spix]
+                    out[stix:spix][(chrmap >= hbound[j]) & (chrmap <= hbound[j + 1])] = k
+                    k += 1
+            return out
+
+        # 1d. fallback variants that keep the block count but break another conjunct: the fallback labels restart at 0
+        # on every chromosome (labels shared between chromosomes -> blocks merge across a chromosome boundary)
+        def haplobin_fallback_restarts(nhaploblk_chrom, genpos, chrgrp_stix, chrgrp_spix):
+            out = haplobin_no_fallback(nhaploblk_chrom, genpos, chrgrp_stix, chrgrp_spix)
+            for i in range(len(chrgrp_stix)):
+                nhap = int(nhaploblk_chrom[i])
+                stix, spix = chrgrp_stix[i], chrgrp_spix[i]
+                nmkr = spix - stix
+                if nhap <= nmkr and len(numpy.unique(out[stix:spix])) < nhap:
+                    out[stix:spix] = (numpy.arange(nmkr) * nhap) // nmkr
             return out
 
         # 2. bins: strict lower bound / earlier bin keeps boundary markers
@@ -1399,6 +1600,9 @@ class C18(Prop):
                             done |= mask
                         out[stix:spix][mask] = k
                         k += 1
+                    nmkr = spix - stix          # the equal-count fallback of the repaired code is kept
+                    if nhap <= nmkr and len(numpy.unique(out[stix:spix])) < nhap:
+                        out[stix:spix] = (k - nhap) + (numpy.arange(nmkr) * nhap) // nmkr
                 return out
             return haplobin
 
@@ -1558,6 +1762,8 @@ class C18(Prop):
                             hmat[:, :, j, i] = mat[:, :, st:sp].astype("int8").dot(u[st:sp, i].astype("int8"))
                         else:
                             hmat[:, :, j, i] = mat[:, :, st:sp].dot(u[st:sp, i])
+                if kind == "flush_1e-12":
+                    hmat[numpy.abs(hmat) < 1e-12] = 0.0
                 if kind == "flush_tiny":
                     hmat[numpy.isclose(hmat, 0.0)] = 0.0          # numpy.isclose: atol = 1e-8
                 if kind == "clip_negative":
@@ -1618,9 +1824,144 @@ class C18(Prop):
             best.sort(0)
             return -(self.ploidy / self.nbestfndr) * best[len(x) - self.nbestfndr:len(x), :, :].sum((0, 1))
 
+        # 12. round 4 -- classes of the second independent batch and protocol-level histories
+        # (a) effects taken from gpmod.u (= concatenate(u_misc, u_a)) instead of gpmod.u_a: rows shifted by len(u_misc)
+        def all_random_effects(mix):
+            orig = mix.__dict__["_calc_haplomat"].__func__
+
+            def calc(pgmat, gpmod, nhaploblk):
+                class G:
+                    pass
+                g = G()
+                g.u_a = gpmod.u
+                return orig(pgmat, g, nhaploblk)
+            return staticmethod(calc)
+
+        # (b) maximum over the parents taken pairwise with a binary ufunc: the third parent is ignored
+        def ohvmat_two_parents(ploidy, haplomat, xmap, mem=1024):
+            best = haplomat.max(0)
+            blk = best[xmap[:, 0], :, :]
+            if xmap.shape[1] > 1:
+                blk = numpy.maximum(blk, best[xmap[:, 1], :, :])
+            return ploidy * blk.sum(1)
+
+        # (c) the dot product is skipped for blocks without effect on a trait; the numpy.empty cell stays unwritten
+        def mk_skip():
+            def fill3(nh, mat, genpos, stix, spix, u):
+                nblk = haplo.nhaploblk_chrom(nh, genpos, stix, spix)
+                if numpy.any(nblk > (spix - stix)):
+                    raise ValueError("number of haplotype blocks assigned to a chromosome greater than number of available markers")
+                hbin = haplo.haplobin(nblk, genpos, stix, spix)
+                hmat = NP.empty((mat.shape[0], mat.shape[1], nh, u.shape[1]), dtype=u.dtype)
+                hst, hsp, _ = haplo.haplobin_bounds(hbin)
+                for i in range(hmat.shape[3]):
+                    for j, (st, sp) in enumerate(zip(hst, hsp)):
+                        if not u[st:sp, i].any():
+                            continue
+                        hmat[:, :, j, i] = mat[:, :, st:sp].dot(u[st:sp, i])
+                return hmat
+
+            def calc(pgmat, gpmod, nhaploblk):
+                return fill3(nhaploblk, pgmat.mat, pgmat.vrnt_genpos, pgmat.vrnt_chrgrp_stix, pgmat.vrnt_chrgrp_spix,
+                             gpmod.u_a)
+
+            def hm(nhaploblk, genomemat, genpos, chrgrp_stix, chrgrp_spix, chrgrp_len, u_a):
+                try:
+                    return fill3(nhaploblk, genomemat, genpos, chrgrp_stix, chrgrp_spix, u_a)
+                except ValueError as e:
+                    raise RuntimeError(str(e))
+            return hm, staticmethod(calc)
+        skip_hm, skip_calc = mk_skip()
+
+        # (d) protocol objects that remember something between two calls of problem()
+        def memo_problem(cls, key):
+            orig = cls.__dict__["problem"]
+
+            def problem(self, pgmat, gmat, ptdf, bvmat, gpmod, t_cur, t_max, **kw):
+                memo = self.__dict__.setdefault("_c18_problems", {})
+                k = key(self, pgmat, gpmod)
+                if k not in memo:
+                    memo[k] = orig(self, pgmat, gmat, ptdf, bvmat, gpmod, t_cur, t_max, **kw)
+                return memo[k]
+            return problem
+        OHVS = ohvsel.OptimalHaploidValueSubsetSelection
+        OPVS = opvsel_.OptimalPopulationValueSubsetSelection
+        GBS = gbsel_.GenotypeBuilderSubsetSelection
+        by_protocol = lambda self, pg, gm: (self.nhaploblk,)
+        by_identity = lambda self, pg, gm: (id(pg), id(gm), self.nhaploblk, getattr(self, "unique_parents", None))
+        by_shape = lambda self, pg, gm: (pg.mat.shape, self.nhaploblk, getattr(self, "unique_parents", None))
+        xmap_memo = {}
+        orig_xmap = mix_ohv.__dict__["_calc_xmap"].__func__
+
+        def xmap_cached(ntaxa, nparent, unique_parents=True):
+            k = (int(ntaxa), int(nparent))
+            if k not in xmap_memo:
+                xmap_memo[k] = orig_xmap(ntaxa, nparent, unique_parents)
+            return xmap_memo[k]
+
+        @contextlib.contextmanager
+        def fresh_xmap_memo():
+            xmap_memo.clear()
+            with patch([(mix_ohv, "_calc_xmap", staticmethod(xmap_cached))]):
+                yield
+            xmap_memo.clear()
+
+        # (e) the block layout remembered on the container / on the protocol (stale after vrnt_genpos is re-assigned)
+        def layout_cached(where):
+            def calc(pgmat, gpmod, nhaploblk):
+                holder = pgmat.__dict__ if where == "container" else layout_memo
+                key = ("_c18_lay", int(nhaploblk), pgmat.mat.shape[2]) if where == "container" else \
+                      (id(pgmat), int(nhaploblk))
+                if key not in holder:
+                    gp, st, sp = pgmat.vrnt_genpos, pgmat.vrnt_chrgrp_stix, pgmat.vrnt_chrgrp_spix
+                    nb = haplo.nhaploblk_chrom(nhaploblk, gp, st, sp)
+                    if numpy.any(nb > (sp - st)):
+                        raise ValueError("number of haplotype blocks assigned to a chromosome greater than number of available markers")
+                    holder[key] = haplo.haplobin_bounds(haplo.haplobin(nb, gp, st, sp))[:2]
+                hst, hsp = holder[key]
+                mat, u = pgmat.mat, gpmod.u_a
+                hmat = numpy.zeros((mat.shape[0], mat.shape[1], nhaploblk, u.shape[1]), dtype=u.dtype)
+                for i in range(u.shape[1]):
+                    for j, (a_, b_) in enumerate(zip(hst, hsp)):
+                        hmat[:, :, j, i] = mat[:, :, a_:b_].dot(u[a_:b_, i])
+                return hmat
+            return staticmethod(calc)
+        layout_memo = {}
+
+        @contextlib.contextmanager
+        def layout_by_identity(mix):
+            layout_memo.clear()
+            with patch([(mix, "_calc_haplomat", layout_cached("identity"))]):
+                yield
+            layout_memo.clear()
+
+        # (f) a query that is right itself but disturbs the object for the next one
+        orig_gb_lat = GB.__dict__["latentfn"]
+        orig_opv_lat = OPV.__dict__["latentfn"]
+        orig_ohv_lat = OHV.__dict__["latentfn"]
+
+        def gb_sorts_held_matrix(self, x, *a, **k):
+            out = orig_gb_lat(self, x, *a, **k)
+            self._haplomat.sort(1)                       # "pre-sorted for the next call"
+            return out
+
+        def opv_negates_held_matrix(self, x, *a, **k):
+            out = orig_opv_lat(self, x, *a, **k)
+            numpy.negative(self._haplomat, out=self._haplomat)
+            return out
+
+        def ohv_scales_held_matrix(self, x, *a, **k):
+            out = orig_ohv_lat(self, x, *a, **k)
+            self._ohvmat *= (1.0 / len(x))
+            return out
+
         return [
             ("apportion_one_iteration_short", lambda: patch(everywhere("nhaploblk_chrom", nblk_short))),
             ("apportion_argmax", lambda: patch(everywhere("nhaploblk_chrom", nblk_argmax))),
+            ("D10_regression[greedy loop without marker cap]", lambda: patch(everywhere("nhaploblk_chrom", nblk_uncapped))),
+            ("D10_regression[haplobin without equal-count fallback]",
+             lambda: patch(everywhere("haplobin", haplobin_no_fallback))),
+            ("haplobin_fallback_labels_restart_at_zero", lambda: patch(everywhere("haplobin", haplobin_fallback_restarts))),
             ("haplobin_lower_bound_strict", lambda: patch(everywhere("haplobin", mk_haplobin(lower_strict=True)))),
             ("haplobin_first_bin_wins", lambda: patch(everywhere("haplobin", mk_haplobin(first_wins=True)))),
             ("bounds_start_one_late", lambda: patch(everywhere("haplobin_bounds", bounds_late))),
@@ -1655,6 +1996,7 @@ class C18(Prop):
             ("haplomat_float32", lambda: patch(mk_fill("float32"))),
             ("haplomat_int8_accumulation", lambda: patch(mk_fill("int8"))),
             ("haplomat_flush_isclose_zero", lambda: patch(mk_fill("flush_tiny"))),
+            ("haplomat_flush_below_1e-12", lambda: patch(mk_fill("flush_1e-12"))),
             ("haplomat_flush_below_1e-6", lambda: patch(mk_fill("clip_negative"))),
             ("haplomat_assumes_c_order", lambda: patch(mk_fill("assume_c_order"))),
             ("ohv_real_latent_not_normalised", lambda: patch([(OHVR, "latentfn", lat_unnormalised)])),
@@ -1669,6 +2011,33 @@ class C18(Prop):
             ("stale[opv: best-phase cache keyed by array identity]", lambda: patch([(OPV, "latentfn", opv_cache_by_id)])),
             ("stale[ohv: ohvmat copy keyed by array identity]", lambda: patch([(OHV, "latentfn", ohv_cache_by_id)])),
             ("stale[gb: best-phase cache keyed by array identity]", lambda: patch([(GB, "latentfn", gb_cache_by_id)])),
+            # round 4
+            ("haplomat_effects_from_gpmod_u[ohv]", lambda: patch([(mix_ohv, "_calc_haplomat", all_random_effects(mix_ohv))])),
+            ("haplomat_effects_from_gpmod_u[opv]", lambda: patch([(mix_opv, "_calc_haplomat", all_random_effects(mix_opv))])),
+            ("haplomat_effects_from_gpmod_u[gb]", lambda: patch([(mix_gb, "_calc_haplomat", all_random_effects(mix_gb))])),
+            ("ohvmat_third_parent_ignored", lambda: patch([(mix_ohv, "_calc_ohvmat", staticmethod(ohvmat_two_parents))])),
+            ("haplomat_skips_blocks_without_effect[haplo]", lambda: patch([(haplo, "haplomat", skip_hm)])),
+            ("haplomat_skips_blocks_without_effect[ohv]", lambda: patch([(mix_ohv, "_calc_haplomat", skip_calc)])),
+            ("haplomat_skips_blocks_without_effect[opv]", lambda: patch([(mix_opv, "_calc_haplomat", skip_calc)])),
+            ("haplomat_skips_blocks_without_effect[gb]", lambda: patch([(mix_gb, "_calc_haplomat", skip_calc)])),
+            ("stale[ohv protocol: first problem returned for ever]",
+             lambda: patch([(OHVS, "problem", memo_problem(OHVS, by_protocol))])),
+            ("stale[ohv protocol: problem memoised by container identity]",
+             lambda: patch([(OHVS, "problem", memo_problem(OHVS, by_identity))])),
+            ("stale[opv protocol: problem memoised by container identity]",
+             lambda: patch([(OPVS, "problem", memo_problem(OPVS, by_identity))])),
+            ("stale[gb protocol: problem memoised by matrix shape]",
+             lambda: patch([(GBS, "problem", memo_problem(GBS, by_shape))])),
+            ("stale[ohv: cross map cached per (ntaxa, nparent), unique_parents ignored]", fresh_xmap_memo),
+            ("query_disturbs_object[gb latentfn sorts the held matrix]", lambda: patch([(GB, "latentfn", gb_sorts_held_matrix)])),
+            ("query_disturbs_object[opv latentfn negates the held matrix]",
+             lambda: patch([(OPV, "latentfn", opv_negates_held_matrix)])),
+            ("query_disturbs_object[ohv latentfn rescales ohvmat]", lambda: patch([(OHV, "latentfn", ohv_scales_held_matrix)])),
+            ("stale[opv: block layout cached on the container]",
+             lambda: patch([(mix_opv, "_calc_haplomat", layout_cached("container"))])),
+            ("stale[ohv: block layout cached on the container]",
+             lambda: patch([(mix_ohv, "_calc_haplomat", layout_cached("container"))])),
+            ("stale[gb: block layout cached by container identity]", lambda: layout_by_identity(mix_gb)),
         ]
 
 
